@@ -41,6 +41,18 @@ use s2n_quic_core::{
 use std::collections::BTreeMap;
 use vq_util::{json, mix, Rng, Summary, Violation};
 
+
+/// formats and records a trace line only when tracing is on (off under Miri unless --verbose:
+/// the witness of a Miri-mode history is regenerated natively with `--replay`)
+macro_rules! trace {
+    ($s:expr, $($arg:tt)*) => {
+        if $s.tracing {
+            let m = format!($($arg)*);
+            $s.log(m);
+        }
+    };
+}
+
 #[derive(Clone, Copy, PartialEq, Eq, Debug)]
 enum Kind {
     Cubic,
@@ -215,6 +227,8 @@ struct Hist<CC: CongestionController> {
     app_limited_phase: bool,
     /// low-loss profile: lets the window grow large
     clean: bool,
+    /// Miri-sized history
+    tiny: bool,
     // RFC 9002 view of the CUBIC recovery period
     recovery_start_us: Option<u64>,
     last_recovery_start_us: Option<u64>,
@@ -224,6 +238,7 @@ struct Hist<CC: CongestionController> {
     calls: u64,
     stats: Stats,
     verbose: bool,
+    tracing: bool,
     strict_appendix_b: bool,
     trace: Vec<String>,
     fail: Option<Fail>,
@@ -265,6 +280,7 @@ impl<CC: CongestionController> Hist<CC> {
             confirmed: false,
             app_limited_phase: false,
             clean,
+            tiny: false,
             recovery_start_us: None,
             last_recovery_start_us: None,
             clearly_app_limited: false,
@@ -272,6 +288,7 @@ impl<CC: CongestionController> Hist<CC> {
             calls: 0,
             stats,
             verbose,
+            tracing: verbose || !cfg!(miri),
             strict_appendix_b,
             trace: Vec::new(),
             fail: None,
@@ -526,7 +543,13 @@ impl<CC: CongestionController> Hist<CC> {
     }
 
     fn op_send_burst(&mut self) {
-        let count = if self.clean { self.rng.range(1, 48) } else { self.rng.range(1, 10) };
+        let count = if self.tiny {
+            self.rng.range(1, 3)
+        } else if self.clean {
+            self.rng.range(1, 48)
+        } else {
+            self.rng.range(1, 10)
+        };
         for _ in 0..count {
             if self.fail.is_some() {
                 return;
@@ -603,11 +626,11 @@ impl<CC: CongestionController> Hist<CC> {
                     && 2 * bif + 2 < cwnd
                     && cwnd - bif > 3 * self.mtu as u64;
             }
-            self.log(format!(
+            trace!(self, 
                 "send pn={pn} bytes={bytes} app_limited={app_limited:?} limited={limited} fast={fast} -> cwnd={} bif={}",
                 self.cc.congestion_window(),
                 self.cc.bytes_in_flight()
-            ));
+            );
             self.check(Call::Sent, cw, bf);
         }
     }
@@ -643,7 +666,7 @@ impl<CC: CongestionController> Hist<CC> {
                 // RFC 9000 14.4: loss of a PMTU probe is not a congestion signal
                 self.stats.shape |= shape::MTU_PROBE_LOST;
                 self.cc.on_packet_discarded(p.bytes as usize, &mut self.publ);
-                self.log(format!("lost mtu-probe pn={pn} -> discard {}", p.bytes));
+                trace!(self, "lost mtu-probe pn={pn} -> discard {}", p.bytes);
                 self.check(Call::Discard, cw, bf);
                 continue;
             }
@@ -662,12 +685,12 @@ impl<CC: CongestionController> Hist<CC> {
                 // recovery::Manager: min_rtt is re-seeded after persistent congestion
                 self.rtt.on_persistent_congestion();
             }
-            self.log(format!(
+            trace!(self, 
                 "lost pn={pn} bytes={} sent_at={} pc={pc} new_burst={new_burst} -> cwnd {cw} -> {}",
                 p.bytes,
                 p.sent_us,
                 self.cc.congestion_window()
-            ));
+            );
             self.check(
                 Call::Lost {
                     pc,
@@ -759,11 +782,11 @@ impl<CC: CongestionController> Hist<CC> {
             self.cc
                 .on_rtt_update(ts(newest_sent_us), now, &self.rtt, &mut self.publ);
             self.stats.shape |= shape::RTT;
-            self.log(format!(
+            trace!(self, 
                 "rtt sample={sample:?} ack_delay={ack_delay:?} -> srtt={:?} min={:?}",
                 self.rtt.smoothed_rtt(),
                 self.rtt.min_rtt()
-            ));
+            );
             self.check(Call::Rtt, cw, bf);
         }
         if new_largest {
@@ -814,13 +837,13 @@ impl<CC: CongestionController> Hist<CC> {
                 &mut self.publ,
             );
             self.stats.shape |= shape::ACK;
-            self.log(format!(
+            trace!(self, 
                 "ack pns={:?}..={newest} n={} bytes={total} newest_sent={sent_us} -> cwnd {cw} -> {} bif={}",
                 set.first().unwrap(),
                 set.len(),
                 self.cc.congestion_window(),
                 self.cc.bytes_in_flight()
-            ));
+            );
             self.check(
                 Call::Ack {
                     bytes: total,
@@ -851,10 +874,10 @@ impl<CC: CongestionController> Hist<CC> {
                     &mut self.publ,
                 );
                 self.stats.shape |= shape::ACK | shape::ACK_SPLIT;
-                self.log(format!(
+                trace!(self, 
                     "ack(split) pn={pn} bytes={bytes} -> cwnd {cw} -> {}",
                     self.cc.congestion_window()
-                ));
+                );
                 self.check(
                     Call::Ack {
                         bytes: bytes as u64,
@@ -915,10 +938,10 @@ impl<CC: CongestionController> Hist<CC> {
         self.cc
             .on_explicit_congestion(ce, ts(self.now_us), &mut self.publ);
         self.stats.shape |= shape::ECN;
-        self.log(format!(
+        trace!(self, 
             "ecn ce={ce} -> cwnd {cw} -> {}",
             self.cc.congestion_window()
-        ));
+        );
         self.check(Call::Ecn, cw, bf);
     }
 
@@ -942,10 +965,10 @@ impl<CC: CongestionController> Hist<CC> {
         } else {
             shape::MTU_DOWN
         };
-        self.log(format!(
+        trace!(self, 
             "mtu {old} -> {new}: cwnd {cw} -> {}",
             self.cc.congestion_window()
-        ));
+        );
         self.check(Call::Mtu { old, new }, cw, bf);
     }
 
@@ -976,7 +999,7 @@ impl<CC: CongestionController> Hist<CC> {
                 self.shadow_bif -= p.bytes as u64;
                 self.cc
                     .on_packet_discarded(p.bytes as usize, &mut self.publ);
-                self.log(format!("discard pn={pn} bytes={}", p.bytes));
+                trace!(self, "discard pn={pn} bytes={}", p.bytes);
                 self.check(Call::Discard, cw, bf);
                 if self.fail.is_some() {
                     return;
@@ -987,7 +1010,7 @@ impl<CC: CongestionController> Hist<CC> {
             let (cw, bf) = self.before();
             self.shadow_bif -= total;
             self.cc.on_packet_discarded(total as usize, &mut self.publ);
-            self.log(format!("discard {} packets, bytes={total}", pns.len()));
+            trace!(self, "discard {} packets, bytes={total}", pns.len());
             self.check(Call::Discard, cw, bf);
         }
         self.handshake_sends_left = 0;
@@ -1074,10 +1097,10 @@ impl<CC: CongestionController> Hist<CC> {
         let cwnd = self.cc.congestion_window() as u64;
         let bif = self.shadow_bif;
         self.clearly_app_limited = 2 * bif + 2 < cwnd && cwnd - bif > 3 * self.mtu as u64;
-        self.log(format!(
+        trace!(self, 
             "send(app-limited) pn={pn} bytes={bytes} -> cwnd={cwnd} bif={bif} clearly={}",
             self.clearly_app_limited
-        ));
+        );
         self.check(Call::Sent, cw, bf);
     }
 }
@@ -1102,6 +1125,16 @@ fn drive<CC: CongestionController>(
 ) -> Outcome {
     let mut h = Hist::new(kind, cc, mtu, rng, verbose, strict);
     let mut guard = 0u64;
+    if target_calls < 40 {
+        h.tiny = true;
+        // tiny (Miri) histories: a fixed prologue so that the few calls that fit reach an ack,
+        // an RTT sample and a loss declaration; the random part follows
+        h.op_send_burst();
+        h.op_ack_frame();
+        h.op_send_burst();
+        h.op_ack_frame();
+        h.op_detect_losses(true);
+    }
     while h.calls < target_calls && h.fail.is_none() && guard < target_calls * 20 {
         h.step();
         guard += 1;
@@ -1130,7 +1163,7 @@ fn history_params(p: &Params, index: u64) -> (Rng, Kind, u16, u64) {
         _ => rng.range(1200, 9000) as u16,
     };
     let len = if p.miri {
-        rng.range(10, 36)
+        rng.range(8, 16)
     } else {
         rng.range(300, 3000)
     };
@@ -1189,7 +1222,8 @@ pub fn run(p: &Params, sum: &mut Summary) {
         });
         sum.evaluations += 1;
         let replay = json!({"check": "cc", "seed": p.seed, "history": index, "mode": p.mode(),
-                            "controller": kind.name(), "mtu": mtu, "target_calls": len});
+                            "controller": kind.name(), "mtu": mtu, "target_calls": len,
+                            "strict_appendix_b": p.strict_appendix_b, "huge_initial_window": p.huge_initial_window});
         match res {
             Err(Caught::Library { loc, msg }) => {
                 sum.violation(Violation {
